@@ -655,6 +655,8 @@ def run(ctx):
     r05c(ctx)
     from .round12 import r16l
     r16l(ctx)
+    from .round12 import r16m
+    r16m(ctx)
 
 
 from ..selftest import Seed, unparse_seed  # noqa: E402
